@@ -116,7 +116,13 @@ def gen_e2e_module():
     src = re.sub(r"^module\s+\S+", "module verif/e2e", src, count=1, flags=re.M)
     src = re.sub(r"(github\.com/tikv/client-go/v2\s*=>\s*)\.\./?", r"\g<1>" + REPO, src)
     extra = "".join("\nrequire %s %s\n" % (m, v) for m, v in EXTRA_REQUIRES if m not in src)
-    _write_if_changed(os.path.join(e2e, "go.mod"), src + extra)
+    # The module directory is shared by concurrent runs against different trees (VERIF_REPO): the generated
+    # go.mod/go.sum go to the run's own work directory and are passed with -modfile; the file inside the
+    # module directory only marks the module root (and serves hand runs against /repo).
+    modfile = os.path.join(WORK, "e2e.mod")
+    _write_if_changed(modfile, src + extra)
+    if not ALT or not os.path.exists(os.path.join(e2e, "go.mod")):
+        _write_if_changed(os.path.join(e2e, "go.mod"), src + extra)
     sums = open(os.path.join(REPO, "integration_tests", "go.sum")).read()
     have = set(sums.splitlines())
     for extra_file in (os.path.join(REPO, "go.sum"), os.path.join(VERIF, "tools", "extra.sum"), os.path.join(e2e, "go.sum")):
@@ -125,7 +131,15 @@ def gen_e2e_module():
                 if l and l not in have:
                     sums += l + "\n"
                     have.add(l)
-    _write_if_changed(os.path.join(e2e, "go.sum"), sums)
+    old_sum = os.path.join(WORK, "e2e.sum")
+    if os.path.exists(old_sum):
+        for l in open(old_sum).read().splitlines():
+            if l and l not in have:
+                sums += l + "\n"
+                have.add(l)
+    _write_if_changed(old_sum, sums)
+    if not ALT or not os.path.exists(os.path.join(e2e, "go.sum")):
+        _write_if_changed(os.path.join(e2e, "go.sum"), sums)
     return e2e
 
 
@@ -184,6 +198,7 @@ def build_cmd(unit, tier, compile_only=False):
         pkg = unit["pkg"]
     else:
         cwd = gen_e2e_module()
+        args += ["-modfile", os.path.join(WORK, "e2e.mod")]
         pkg = unit["pkg"]
     if unit.get("race", True):
         args.append("-race")
